@@ -115,6 +115,8 @@ def run(chk):
                         want = 0 if n1 < n2 else 2
                         if isinstance(r, Agg) and r.key == ORDERING:
                             v, d = (PROVED, "") if r.variant == want else (REFUTED, "a %d-variable table does not compare %s a %d-variable one" % (n1, "below" if n1 < n2 else "above", n2))
+                        elif isinstance(r, Opaque) and r.kind == "lexcmp":
+                            v, d = REFUTED, "tables of %d and %d variables are ordered by their blocks instead of their variable counts (e.g. the two constant-zero tables compare Equal although they are different functions)" % (n1, n2)
                         else:
                             v, d = UNDECIDED, "ordering depends on table contents: %r" % (r,)
                 except Undecided as e:
